@@ -67,9 +67,43 @@ func blockReaches(from, to, stop *ssa.BasicBlock) bool {
 	return false
 }
 
+// loopBody: the natural loop of header h (blocks that reach a back edge of h without passing h).
+func loopBody(h *ssa.BasicBlock) map[*ssa.BasicBlock]bool {
+	body := map[*ssa.BasicBlock]bool{h: true}
+	var stack []*ssa.BasicBlock
+	for _, p := range h.Preds {
+		if h.Dominates(p) && !body[p] {
+			body[p] = true
+			stack = append(stack, p)
+		}
+	}
+	for len(stack) > 0 {
+		b := stack[len(stack)-1]
+		stack = stack[:len(stack)-1]
+		for _, p := range b.Preds {
+			if !body[p] && h.Dominates(p) {
+				body[p] = true
+				stack = append(stack, p)
+			}
+		}
+	}
+	return body
+}
+
 // loopBypass: can the loop headed by h iterate again without executing must?
+// Only paths that stay inside the loop count (leaving and re-entering through
+// an enclosing loop is a new execution of the loop, not another iteration).
 func loopBypass(fn *ssa.Function, h *ssa.BasicBlock, must ssa.Instruction) ([]*ssa.BasicBlock, bool) {
 	last := h.Instrs[len(h.Instrs)-1]
+	body := loopBody(h)
+	old := pathEdgeFilter
+	pathEdgeFilter = func(p, s *ssa.BasicBlock) bool {
+		if !body[s] {
+			return true
+		}
+		return old != nil && old(p, s)
+	}
+	defer func() { pathEdgeFilter = old }()
 	return pathAvoiding(fn, last, func(in ssa.Instruction) bool { return in == h.Instrs[0] }, func(in ssa.Instruction) bool { return in == must })
 }
 
